@@ -24,5 +24,20 @@ for a in sys.argv[1:]:
             if m:
                 mod = m.group(1).replace("btree_iter", "btree::iter").replace("btree_node", "btree::node")
                 ok.add("%s::verif_kani%s::%s" % (mod, m.group(2) or "", m.group(3)))
+# per-harness kani logs of a check that was stopped before it wrote its evidence (scratch directories given as arguments)
+for a in sys.argv[1:]:
+    if os.path.isdir(a):
+        for f in glob.glob(os.path.join(a, "log_*.txt")):
+            m = re.match(r"log_([a-z_]+?)_verif_kani(_ms)?_([a-z0-9_]+)\.txt$", os.path.basename(f))
+            if not m or f.endswith("_pb.txt"):
+                continue
+            s = open(f, errors="replace").read()
+            if "VERIFICATION:- SUCCESSFUL" not in s:
+                continue
+            cov = re.findall(r"Check \d+: [^\n]*cover[^\n]*\n\s*- Status: (\w+)", s)
+            if any(c != "SATISFIED" for c in cov):
+                continue
+            mod = {"btree_iter": "btree::iter", "btree_node": "btree::node"}.get(m.group(1), m.group(1))
+            ok.add("%s::verif_kani%s::%s" % (mod, m.group(2) or "", m.group(3)))
 json.dump(sorted(ok), open(p, "w"), indent=0)
 print(len(ok), "validated harnesses")
